@@ -272,6 +272,26 @@ def judge(caps, sizes, rows, doc, rd, model_doc, v_out, v_rd):
     return viol, dis
 
 
+def judge_composition(caps, sizes, rd, rt):
+    """writer model o reader model (request 1705): must satisfy the property on its own, and must equal what the real
+    reader returned for the real writer's output (texts exactly, starts within 2^-10 us)"""
+    inp = [{"lines": lines, "start": str(s), "end": str(e)} for lines, s, e in caps]
+    status, obs, ok = rt
+    if status != 0 or ok != 1:
+        return {"stream": "B-composition", "input": inp, "model": [status, obs, ok],
+                "what": "the writer model composed with the SCC reader model does not re-read to the same words "
+                        "(status %d: 0 read, 1 writer error, 2 not a document, 3 reader refused)" % status}
+    if isinstance(rd, Ok) and not near_threshold(caps, sizes):
+        real = rd.v
+        same = len(real) == len(obs) and all(
+            r[1] == o[1] and abs(r[0] - Fraction(o[0][0], o[0][1])) <= Fraction(1, 1024) for r, o in zip(real, obs))
+        if not same:
+            return {"stream": "B-composition", "input": inp, "impl": [[str(a), b] for a, b in real],
+                    "model": [[str(Fraction(o[0][0], o[0][1])), o[1]] for o in obs],
+                    "what": "reader model o writer model differs from SCCReader o SCCWriter"}
+    return None
+
+
 def evaluate(cases):
     """cases: list of caps. Returns list of (caps, sizes, rows, viol, dis, near)"""
     flat = [(1704, "\n".join(lines)) for caps in cases for lines, s, e in caps]
@@ -290,11 +310,14 @@ def evaluate(cases):
         reqs.append((1701, wc))
         reqs.append((1702, [wc, doc.v if isinstance(doc, Ok) else ""]))
         reqs.append((1703, [wc, rd.v if isinstance(rd, Ok) else []]))
+        reqs.append((1705, wc))
     resp = oracle_batch(reqs)
     for i, (caps, sizes, rows, doc, rd) in enumerate(obs):
-        m, v_out, v_rd = resp[3 * i:3 * i + 3]
+        m, v_out, v_rd, rt = resp[4 * i:4 * i + 4]
         model_doc = Ok(m[1]) if m[0] == 0 else Err(m[1])
         viol, dis = judge(caps, sizes, rows, doc, rd, model_doc, v_out, v_rd)
+        if viol is None and dis is None and all(r <= 15 for r in rows):
+            dis = judge_composition(caps, sizes, rd, rt)
         out.append((caps, sizes, rows, viol, dis, near_threshold(caps, sizes)))
     return out
 
@@ -337,9 +360,69 @@ def build_cases(ctx):
     return cases
 
 
+RAISING_DOCS = [
+    # a 34-column row: CaptionLineLengthError
+    "Scenarist_SCC V1.0\n\n00:00:01:00\t94ae 94ae 9420 9420 9470 9470 " + " ".join(["6161"] * 17)
+    + " 942c 942c 942f 942f\n\n00:00:05:00\t942c 942c\n\n",
+    # a malformed timecode: CaptionReadTimingError
+    "Scenarist_SCC V1.0\n\n0:0:1\t94ae 94ae 9420 9420 9470 9470 6162 942c 942c 942f 942f\n\n",
+    # nothing to read: CaptionReadNoCaptions
+    "Scenarist_SCC V1.0\n\n",
+]
+VALID_DOC = ("Scenarist_SCC V1.0\n\n00:00:01:00\t94ae 94ae 9420 9420 9470 9470 6162 e364 942c 942c 942f 942f\n\n"
+             "00:00:03:00\t942c 942c\n\n")
+
+
+def run_reused_reader(ctx, res, cases):
+    """re-read with ONE long-lived SCCReader that has seen raising and non-raising documents before (and sees more of
+    them between the re-reads): the result must be that of a fresh reader and satisfy the re-read oracle"""
+    rng = ctx.rng
+    reader = SCCReader()
+    seen = []
+    for d in RAISING_DOCS + [VALID_DOC]:
+        seen.append(type(impl.call(lambda: reader.read(d))).__name__)
+    reqs, rows = [], []
+    for caps in cases:
+        if rng.random() < 0.5:
+            d = rng.choice(RAISING_DOCS + [VALID_DOC])
+            impl.call(lambda: reader.read(d))
+        cs = CaptionSet({"en-US": CaptionList([mk_caption(num(s), num(e), lines) for lines, s, e in caps])})
+        doc = impl.call(lambda: SCCWriter().write(cs))
+        if not isinstance(doc, Ok):
+            continue
+
+        def obs(r):
+            out = impl.call(lambda: r.read(doc.v))
+            if isinstance(out, Ok):
+                lang = out.v.get_languages()[0]
+                return Ok([[Fraction(c.start), c.get_text()] for c in out.v.get_captions(lang)])
+            return out
+        used, fresh = obs(reader), obs(SCCReader())
+        rows.append((caps, doc.v, used, fresh))
+        reqs.append((1703, [wire_caps(caps), used.v if isinstance(used, Ok) else []]))
+    verdicts = oracle_batch(reqs)
+    res["distribution"]["C_reread_with_a_used_reader"] = len(rows)
+    res["distribution"]["C_reader_history_before"] = seen
+    for (caps, doc, used, fresh), v in zip(rows, verdicts):
+        res["evaluations"] += 1
+        inp = [{"lines": lines, "start": str(s), "end": str(e)} for lines, s, e in caps]
+        if isinstance(fresh, Ok) and (not isinstance(used, Ok) or v != 0):
+            res["violations"].append({"kind": "reread-with-used-reader", "input": inp, "document": doc, "replay": "used-reader",
+                                      "what": "an SCCReader that has read (and refused) other documents before re-reads the writer's "
+                                              "output as %r instead of one caption per cue with the same words"
+                                              % (used.v if isinstance(used, Ok) else impl.ERR_NAMES.get(used.code),),
+                                      "fresh": [[str(a), b] for a, b in fresh.v]})
+        elif isinstance(fresh, Ok) and used.v != fresh.v:
+            res["disagreements"].append({"stream": "C", "input": inp, "impl": [[str(a), b] for a, b in used.v],
+                                         "model": [[str(a), b] for a, b in fresh.v],
+                                         "what": "a used SCCReader and a fresh one re-read the same document differently"})
+        else:
+            res["nontrivial"].add(("used-reader", doc))
+
+
 def run(ctx):
     res = {"evaluations": 0, "nontrivial": set(), "violations": [], "disagreements": [], "distribution": {},
-           "streams": 3, "notes": []}
+           "streams": 5, "notes": []}
     run_wrap(ctx, res)
     cases = build_cases(ctx)
     dist = res["distribution"]
@@ -367,6 +450,8 @@ def run(ctx):
             res["violations"].append(viol)
         if dis is not None:
             res["disagreements"].append(dis)
+    in_domain = [c for c in cases if all(len(l) <= 80 for lines, s, e in c for l in lines)][11:]
+    run_reused_reader(ctx, res, in_domain[:ctx.n(200, 4000)])
     res["samples"] = [[{"lines": l, "start": str(s), "end": str(e)} for l, s, e in c] for c in cases[9:12]]
     res["rule"] = ("A: texts over the tree's basic character set (word lengths 1..40, space runs, hyphens, lengths "
                    "around the width), non-trivial = wraps to more than one row. B: API-built caption sets of 1-6 "
@@ -387,7 +472,10 @@ def run(ctx):
         "correspondence_only": ["textwrap.wrap itself (stream A validates the Coq model of it)",
                                 "binary64 arithmetic of PASS 2 and _format_timestamp (exact model; exact-boundary "
                                 "inputs counted as near_threshold)",
-                                "re-reading through the real SCCReader: one caption per cue, same words, start time",
+                                "re-reading through the real SCCReader: one caption per cue, same words, start time; the same "
+                                "statement for the writer model composed with builder sccr's full reader model is evaluated "
+                                "on every case (request 1705) and compared with the real pair; complete-table theorems for "
+                                "every basic character through both models",
                                 "document assembly of write() (header, line layout)"]}
     res["trusted_extra"] = ["Python's textwrap (modelled by coq/model/SccWrap.v for break_on_hyphens=False, no TABs; "
                             "validated by stream A on every run)",
@@ -406,6 +494,18 @@ def replay(ctx, rec):
         bad = any(len(r) > 32 for r in rows) or "".join(real.v.split()) != "".join(t.split()) or \
             (all(len(x) <= 32 for x in t.split()) and real.v.split() != t.split())
         return bad, real.v
+    if rec.get("replay") == "used-reader":
+        reader = SCCReader()
+        for d in RAISING_DOCS + [VALID_DOC]:
+            impl.call(lambda: reader.read(d))
+        caps = [(c["lines"], Fraction(c["start"]), Fraction(c["end"])) for c in rec["input"]]
+        out = impl.call(lambda: reader.read(rec["document"]))
+        if not isinstance(out, Ok):
+            return True, repr(out)
+        lang = out.v.get_languages()[0]
+        got = [[Fraction(c.start), c.get_text()] for c in out.v.get_captions(lang)]
+        v = oracle_batch([(1703, [wire_caps(caps), got])])[0]
+        return v != 0, "verdict %s: %r" % (v, got[:3])
     if rec.get("replay") == "write":
         caps = [(c["lines"], Fraction(c["start"]), Fraction(c["end"])) for c in rec["input"]]
         caps_, sizes, rows, viol, dis, near = evaluate([caps])[0]
